@@ -149,6 +149,11 @@ def numpy_fn(I, n, args, kw, st, node):
             import math
             return math.log10(args[0])
         return arith("/", V.v_log(args[0]), V.v_log(10))
+    if n == "sin":
+        if V.FLOATMODE and is_num(args[0]):
+            import math
+            return math.sin(args[0])
+        return V.F_SIN(z(args[0], True))
     if n == "sqrt":
         I.ctx.oblige("sqrt_nonneg", compare(">=", args[0], 0), st, node, "", SAFETY_TAG)
         return V.v_pow(args[0], Fraction(1, 2))
@@ -407,7 +412,7 @@ def modular_call(I, c, args, kw, st, node):
             post.locals[rn] = v
             res_vals.append(v)
     post.heap = dict(st.heap)
-    if len(res_vals) == 1 and c.options.get("single_result", False):
+    if len(res_vals) == 1:
         post.locals["result"] = res_vals[0]
     for eid, text in c.ensures:
         if c.options.get("no_assume_ensures"):
@@ -425,7 +430,7 @@ def modular_call(I, c, args, kw, st, node):
             st.heap[oid] = rec
     if not c.returns:
         return None
-    if len(res_vals) == 1 and c.options.get("single_result", False):
+    if len(res_vals) == 1 and not c.options.get("returns_1tuple", False):
         return res_vals[0]
     return TupleV(res_vals)
 
